@@ -4,6 +4,8 @@ import json, os
 V = os.path.dirname(os.path.dirname(os.path.abspath(__file__)))
 ids = [json.loads(l)["id"] for l in open(os.path.join(V, "properties.jsonl"))]
 
+PIPE_NOTE = "Trusted: Lean kernel + {propext, Classical.choice, Quot.sound}; the oracle's Lean code is executed compiled (its verdict function is the one the soundness/completeness theorems are about); the harness dump of the dataset (exact dyadic floats); the generator's premise validation (brute-force symmetry search in Rust, independent of moyo); f64 rounding inside moyo is not modelled. The statement for ALL inputs is not proved: the pipeline stages are not yet modelled in Lean, the theorem is about the checker, the quantifier over inputs is explored."
+
 CHECKS = {
  "C15": dict(
   category="proof",
@@ -45,6 +47,86 @@ CHECKS = {
         "tokenising translator (validated against the running code), the storage model (compared with real nalgebra conversions on every run)."),
   technique="translation validation: Python attributes vs Rust values on generated inputs + Lean storage-layout theorems + regenerated binding inventory decided in the kernel",
   engine="lean-proofs+inventory+python-differential"),
+
+ "C01": dict(
+  category="proof",
+  text=("Verified oracle: `checkC01` (Lean, exact rational arithmetic, complete periodic-distance decision by the Cauchy-Schwarz box) is proved equivalent "
+        "(sound and complete, Props/C01.lean: checkC01_iff) to the mathematical statement of C01 on a dataset: every reported rotation has det +-1, its Cartesian operator preserves the metric within the "
+        "tolerance bound, and every atom is carried onto an atom of its species within 4*symprec under periodic boundary conditions. Mechanism theorems for all "
+        "inputs: conj_exact (conjugation by the primitive-to-input matrix preserves det, carries the metric defect by congruence and leaves the Cartesian "
+        "operator unchanged) and expectedOps_conj. The quantifier over crystals/cells/tolerances is explored: the oracle runs on the real outputs for generated crystals of "
+        "all 530 settings, re-based/shifted/rotated cells, supercells (random HNFs up to index 12 and the skew family that exposed the conjugation defect), noise."),
+  design_ref="DESIGN.md §3 C01", note=PIPE_NOTE,
+  technique="Lean 4 verified oracle (checker = [] <-> Spec, proved) run on implementation outputs + algebraic mechanism theorems"),
+ "C02": dict(
+  category="proof",
+  text=("Verified oracle: `checkC02` is proved sound and complete (Props/C02.lean) for: identity present, no duplicates modulo lattice translations, closure and inverses modulo "
+        "translations within 4*symprec (all pairs for <= 48 operations; the exact sub-family checked beyond that is stated in checkC02_group_sound_partial), the count of pure "
+        "translations = index of the primitive cell, and equality (both directions, plus count) with the group constructed from the regenerated Hall table conjugated by the generator's "
+        "recorded re-description (expectedOps_conj). closed_finite_has_inverses: a finite set of unimodular integer matrices closed under products is a group. Explored over all 530 "
+        "settings x re-descriptions and supercells."),
+  design_ref="DESIGN.md §3 C02", note=PIPE_NOTE,
+  technique="Lean 4 verified oracle incl. completeness against the constructed group + group-theory lemma"),
+ "C03": dict(
+  category="proof",
+  text=("Table theorems (kernel-decided over the regenerated tables, Props/C03.lean): Hall-table indexing, ITA numbers cover 1..230 monotonically, the Spglib table lists the smallest "
+        "Hall number of each type, the Standard table the unique entry with setting in {'', b, b1, H, 2}; `expectedHall` is exactly that lookup. The identification itself is decided on "
+        "explored inputs: for crystals generated from each of the 530 settings (premise validated by brute force), own and re-described cells and supercells, both conventions, the returned "
+        "number and Hall number are compared with the generating setting's type; an Err counts as a violation. The general theorem identify_sound (stage model S5) is not built yet."),
+  design_ref="DESIGN.md §3 C03", note=PIPE_NOTE,
+  technique="Lean 4 table theorems over regenerated tables + oracle on generated crystals of all 530 settings"),
+ "C05": dict(
+  category="proof",
+  text=("Verified oracle: `checkC05` is proved sound and complete (Props/C05.lean: checkC05_iff, same_prim_site_iff) for every clause of C05: proper rotation, both lattice relations, every input atom carried onto a "
+        "std_cell site of its species within 4*symprec and onto exactly prim_std_cell site mapping_std_prim[i], every std_cell site reached (pre-image is an input atom), atom count "
+        "N*|det std_linear|, and 'same primitive site <=> related by a reported pure translation'. Explored over all 530 settings (origin shifts always on), supercells, noise."),
+  design_ref="DESIGN.md §3 C05", note=PIPE_NOTE,
+  technique="Lean 4 verified oracle (sound + complete) run on implementation outputs"),
+ "C06": dict(
+  category="proof",
+  text=("Verified oracle: `checkC06` is proved sound and complete (Props/C06.lean) for: every tabulated operation (Lean Hall-symbol model on the regenerated table, incl. centering translations) of the reported "
+        "Hall number maps every std_cell site onto a site of its species within 1e-8 A; std lattice = prim_std lattice x integer matrix of determinant = centering order (= the tabulated "
+        "centering matrix outside the monoclinic system); atom counts; prim_std_cell has no non-trivial pure translation; upper-triangular orientation for undistorted input; Pearson symbol from the "
+        "regenerated classification tables. The Hall-symbol model is tied to the Rust parser by exhaustive correspondence on all 530+1651 table strings. Explored over all settings, both "
+        "conventions, requested settings, noise <= 5% symprec."),
+  design_ref="DESIGN.md §3 C06", note=PIPE_NOTE,
+  technique="Lean 4 verified oracle using the Lean Hall-symbol model on regenerated tables"),
+ "C09": dict(
+  category="proof",
+  text=("Theorems about the Lean model of iterative_symmetry_search/ToleranceHandler for every behaviour of the attempts (Props/C09.lean): if the first attempt succeeds the returned tolerances are "
+        "exactly the requested ones; the returned tolerances are those of the last attempt and that attempt succeeded; at most MAX_HANDLER*MAX_TRIALS = 64 attempts (constants regenerated). "
+        "Decided on explored inputs: noisy twins (<= 5% symprec + strain) and uniformly scaled twins (1e-2..1e3) give the same number, Hall number, operation count and orbit partition as "
+        "the undistorted crystal, and the returned tolerances equal the requested ones, positive. noise_accept / rough_match_unique of the design are not proved."),
+  design_ref="DESIGN.md §3 C09", note=PIPE_NOTE,
+  technique="Lean 4 proof about the tolerance-handler state machine + metamorphic twins judged by the Lean oracle"),
+ "C10": dict(
+  category="proof",
+  text=("Oracle-level theorems (Props/C10.lean): for a request Setting::HallNumber(h) the Lean oracle reports (i) a dataset returned although h is out of 1..=530 or of another type than the crystal, "
+        "(ii) a refusal of a matching request, (iii) a returned Hall number different from h; out-of-range is exactly outside 1..=530 of the regenerated table. The std_cell invariance under the tabulated "
+        "operations of h is the verified C06 clause. Explored: all 530 Hall numbers on matching crystals (own + re-described), neighbouring non-matching types, out-of-range numbers."),
+  design_ref="DESIGN.md §3 C10", note=PIPE_NOTE,
+  technique="Lean 4 oracle theorems over regenerated tables + exhaustive sweep of the 530 requests on generated crystals"),
+ "C14": dict(
+  category="proof",
+  text=("Theorems for ALL decision traces of the three reductions (whatever the f64 comparisons decide): every Minkowski/Niggli/Delaunay step matrix has det +-1 (Niggli: +1), det T = +1 after the parity fix, "
+        "reduced = basis*T, volume and handedness preserved; Delaunay selection (repaired) always returns det +1, with a kernel-checked negative theorem for the pinned selection; gauss2_shortest; "
+        "minkowski3_minima: the twelve conditions of is_minkowski_reduced (EPS = 0) imply all three successive minima; soundness/completeness of the exact shortest-vector oracle. Tie: the exact-rational "
+        "model (certified sqrt enclosures, fragile cases excluded) reproduces T exactly on integer-valued bases of all 14 Bravais types incl. ties and on non-fragile float bases; the oracle judges every output."),
+  design_ref="DESIGN.md §3 C14",
+  note=("Trusted: Lean kernel + standard axioms; hand-written model tied by correspondence; f64 rounding not modelled (fragile comparisons excluded from T comparison, oracle still applies); loop termination "
+        "explored only (fuel exhaustion counted). Known finding niggli-unique-elongated (absolute EPS vs |G| > 1e6)."),
+  technique="Lean 4 proofs (trace induction, geometry of numbers) + exact-rational decision model correspondence + exact SVP oracle"),
+ "C19": dict(
+  category="translation_validation",
+  text=("The derived serde encoders are validated against a proved-invertible schema model: Lean theorems decode_encode / encode_decode / encode_injective for every schema and well-typed value, "
+        "column-major matrix layout, strict decoder rejecting missing/extra/renamed/reordered fields; the schema is regenerated from the Rust sources on every run with kernel-decided theorems that every "
+        "reachable type derives both traits and carries no asymmetric serde attribute. Every explored value: Rust round trip compared field by field (floats 1e-15), the Lean decoder must accept the emitted "
+        "JSON with exactly the schema's fields and re-encode it identically, matrix entries compared through m[(i,j)] not serde; Python serialize/deserialize/as_dict/from_dict compared with the Rust string."),
+  design_ref="DESIGN.md §3 C19",
+  note=("Trusted: serde/serde_json/ryu float print+parse within 1e-15 (observed on every value, not proved), the JSON text layer of the model (executed, print(parse s) = s required on every document), "
+        "the tokenising translator (validated against emitted keys on every value), CPython/pyo3/pythonize."),
+  technique="translation validation of derived encoders against a Lean-proved codec/schema model; regenerated schema decided in the kernel",
+  engine="lean-proofs+translator+rust/python-differential"),
 }
 
 NA_REASON = "check not built yet (work in progress; will be claimed)"
